@@ -293,6 +293,9 @@ const MSG_HEADER_LEN: usize = 12;
 /// Max length of a decoded domain name (RFC 1035 section 2.3.4).
 const MAX_NAME_LEN: usize = 255;
 
+/// Max length of one label of a domain name (RFC 1035 section 2.3.4).
+const MAX_LABEL_LEN: usize = 63;
+
 /// Max number of compression pointers followed while decoding one name.
 /// Every label takes at least two bytes, hence a name has at most 127 labels.
 const MAX_NAME_POINTERS: usize = 127;
@@ -1636,9 +1639,16 @@ impl DnsOutPacket {
     }
 
     fn write_utf8(&mut self, s: &str) {
-        assert!(s.len() < 64);
-        self.write_byte(s.len() as u8);
-        self.write_bytes(s.as_bytes());
+        // A label is 63 bytes or less (RFC 1035 section 2.3.4). A longer one can get
+        // here: a name from the network is kept unescaped, and re-reading it as an
+        // escaped name can merge two of its labels; a conflict suffix can lengthen a
+        // label. Do not panic the daemon thread: cut the label at a char boundary.
+        let mut len = cmp::min(s.len(), MAX_LABEL_LEN);
+        while !s.is_char_boundary(len) {
+            len -= 1;
+        }
+        self.write_byte(len as u8);
+        self.write_bytes(&s.as_bytes()[..len]);
     }
 
     fn write_u32(&mut self, v: u32) {
